@@ -315,6 +315,15 @@ pub fn generate(rng: &mut Rng, cfg: &GenCfg) -> Program {
                     ops.push(Op::LoadFull { c: k % 2, h: hbase });
                     ops.push(Op::DropH { h: hbase });
                 }
+                // the kept guards are used and (every other one) given back: their debts sit in
+                // nodes that were handed back when the call returned (no rng: the programs of the
+                // other threads stay what they were)
+                for k in 0..keep.min(GPT - 2) {
+                    ops.push(Op::GDeref { g: gbase + k });
+                    if k % 2 == 0 {
+                        ops.push(Op::DropG { g: gbase + k });
+                    }
+                }
             } else {
                 let c = (t + 1) % 2;
                 for _ in 0..rng.range(2, 5) {
